@@ -108,6 +108,12 @@ CHECKS = {
             "nodes incl. self loops and 2-cycles must terminate JSON-serialisable without null-valued keys.",
             "Pristine converter = the module source executed under a fresh name; leaf menus have 2 values; str/bool/bytes coercions are not demanded to fail.",
             "4 C16"),
+    "C17": ("exploration", "exhaustive enumeration of plugin sequences (<=3 from 9 instances, direct and composite) x header sources x caller arguments through the real HttpxTransport, compared with a reference pipeline model",
+            "Every ordered sequence of <=3 plugins out of 9 instances (820 sequences; thorough <=4) x transport defaults x per-request headers x caller params/json x bearer_token "
+            "is sent through the real HttpxTransport over httpx.MockTransport; the captured request must carry per-request headers over defaults, each plugin's contribution in "
+            "composition order, API keys in their configured location/name, and the caller's params/body unchanged.",
+            "Header names differing only in case: only presence of the highest-precedence value is demanded. Plugins are the bundled ones with fixed constructor arguments.",
+            "4 C17"),
 }
 
 NOT_YET = {}
